@@ -13,6 +13,7 @@ Inductive op :=
 | OParseHeader (h : list Z)
 | OSetDict (es : list (list Z * Z))   (* SetDictionary on an empty dictionary; es has unique routes *)
 | OFramed (chunks : list (list Z))  (* peer writes these chunks one by one over TCP, then closes; GetNextMessage until it fails *)
+| OWsFramed (msgs : list (list Z))  (* peer sends these websocket messages to the real WSAcceptor, then closes; GetNextMessage until it fails *)
 | OSweep (k : Z).                     (* every byte string of length <= k through Decode / packet Decode / ParseHeader *)
 
 Inductive obs :=
@@ -22,6 +23,7 @@ Inductive obs :=
 | RHdr (size typ : Z)
 | RDict (ok : bool) (routes : list (list Z * Z))   (* sorted by code; [] when not ok *)
 | RFrames (ms : list (list Z)) (e : fend)
+| RWs (ms : list (list Z)) (e : option wsres)   (* None: the peer's close *)
 | RSweep (panics : Z)
 | RErr (e : err)
 | RPanic.
@@ -57,6 +59,7 @@ Definition run_op (o : op) : obs :=
       let '(d, ok) := set_dictionary es empty_dict in
       RDict ok (if ok then sort_code (d_routes d) else [])
   | OFramed chunks => let '(ms, e) := read_frames (concat chunks) in RFrames ms e
+  | OWsFramed msgs => let '(ms, e) := ws_frames msgs in RWs ms e
   | OSweep _ => RSweep 0   (* theorem C06_total: no input panics *)
   end.
 
@@ -75,6 +78,20 @@ Definition fend_eqb (a b : fend) : bool :=
   | _, _ => false
   end.
 
+Definition wsres_eqb (a b : wsres) : bool :=
+  match a, b with
+  | WOk, WOk | WShort, WShort | WBig, WBig => true
+  | WBad x, WBad y => err_eqb x y
+  | _, _ => false
+  end.
+
+Definition owsres_eqb (a b : option wsres) : bool :=
+  match a, b with
+  | None, None => true
+  | Some x, Some y => wsres_eqb x y
+  | _, _ => false
+  end.
+
 Definition msg_eqb (a b : msg) : bool :=
   Z.eqb (mtype a) (mtype b) && Z.eqb (mid a) (mid b) && zlist_eqb (mroute a) (mroute b)
   && zlist_eqb (mdata a) (mdata b) && Bool.eqb (merr a) (merr b).
@@ -87,6 +104,7 @@ Definition obs_eqb (a b : obs) : bool :=
   | RHdr s t, RHdr s' t' => Z.eqb s s' && Z.eqb t t'
   | RDict o r, RDict o' r' => Bool.eqb o o' && list_eqb (pair_eqb zlist_eqb Z.eqb) r r'
   | RFrames x e, RFrames y e' => list_eqb zlist_eqb x y && fend_eqb e e'
+  | RWs x e, RWs y e' => list_eqb zlist_eqb x y && owsres_eqb e e'
   | RSweep x, RSweep y => Z.eqb x y
   | RErr x, RErr y => err_eqb x y
   | RPanic, RPanic => true
@@ -113,10 +131,16 @@ Definition monitor_op (o : op) (b : obs) : bool :=
         | _ => negb (len (mroute m) <=? 255)
         end
     | OFramed chunks, RFrames ms e =>
-        (* every message handed up is one whole packet, and together with what the end kind leaves
-           unread they are a prefix of what was sent *)
-        forallb (fun m => match decode_pkts m with Ok [p] => zlist_eqb (enc_bytes p) m | _ => false end) ms
-        && zlist_eqb (concat ms) (firstn (length (concat ms)) (concat chunks))
+        (* the round-trip clause on a live socket: the whole valid packets at the head of the
+           stream (what the proved-correct model frames) are handed up unchanged and in order;
+           what happens at and after the first malformed byte is only required not to panic *)
+        let vs := fst (read_frames (concat chunks)) in
+        list_eqb zlist_eqb (firstn (length vs) ms) vs
+    | OWsFramed msgs, RWs ms e =>
+        (* likewise: the leading messages that are exactly one valid packet each are handed up
+           unchanged and in order *)
+        let vs := fst (ws_frames msgs) in
+        list_eqb zlist_eqb (firstn (length vs) ms) vs
     | OEncPkt t data, RBytes l =>
         match decode_pkts l with Ok [p] => pair_eqb Z.eqb zlist_eqb p (t, data) | _ => false end
     | _, _ => true
